@@ -212,6 +212,12 @@ func GenSProgram(t *rapid.T, cfg SGenCfg) SProgram {
 		case "promotecp":
 			nf := rapid.IntRange(1, nodes).Draw(t, "ncpfail")
 			p.Ops = append(p.Ops, SOp{K: "promote", Node: rapid.IntRange(0, nodes-1).Draw(t, "node"), Fail: rapid.Permutation(seqInts(nodes)).Draw(t, "cpfailperm")[:nf]})
+		case "verifyonly":
+			// a detached (or spare) node is added and verified without having been synced; reads follow
+			n := rapid.IntRange(0, nodes-1).Draw(t, "node")
+			p.Ops = append(p.Ops, SOp{K: "reconnect", Node: n}, SOp{K: "add", Node: n}, SOp{K: "verifyonly"})
+			off := rapid.Int64Range(0, total-1).Draw(t, "off")
+			p.Ops = append(p.Ops, SOp{K: "read", Off: off, Len: rapid.Int64Range(1, min64(total-off, 32)).Draw(t, "len"), Reps: 4})
 		case "addrace":
 			a := rapid.IntRange(0, nodes-1).Draw(t, "nodea")
 			b := rapid.IntRange(0, nodes-1).Draw(t, "nodeb")
